@@ -16,3 +16,4 @@ def check(rep, tier):
     rep.run(core_backward.run_proof, rep, tier, which=('backward_pass',))
     from contracts import rules_numeric
     rep.run(rules_numeric.run, rep, tier, clauses=('N-frozen', 'N-reuse'))
+    rep.run(rules_numeric.run_args_unmodified, rep)
